@@ -55,8 +55,8 @@ func (g *Group) ToBytes() []byte {
 
 	for _, item := range g.items {
 		itemB := item.ToBytes()
-		if itemB != nil {
-			msg = append(msg, item.ToBytes())
+		if len(itemB) > 0 {
+			msg = append(msg, itemB)
 		}
 	}
 	return joinBody(msg...)
